@@ -28,7 +28,7 @@ def schema(ver):
         item = lib.type.content[0]
         c = item.type.content
         _s[ver] = (s, {"lib": lib, "item": item, "title": c[0], "item/qty": c[1], "note": c[2],
-                       "sub": c[3], "sub/qty": c[3].type.content[0]})
+                       "sub": c[3], "sub/qty": c[3].type.content[0], "memo": c[4]})
     return _s[ver]
 
 
